@@ -210,6 +210,27 @@ func c16Specs(tier string) []*h.SeqSpec {
 					return nil
 				})
 			}
+			// digests with dot segments inside a manifest body (nothing but the store looks at them): an index pushed to x whose child
+			// "digest" points at a blob of y, or at a file outside the root; then the tag is read with an Accept that selects the child
+			for _, tgt := range []struct{ name, dig string }{
+				{"a blob of " + pr.y, "sha256:" + strings.Repeat("../", strings.Count(pr.x, "/")+3) + pr.y + "/blobs/sha256/" + strings.TrimPrefix(f.Items["l1"].Dig, "sha256:")},
+				{"the sentinel file outside the root", "sha256:" + strings.Repeat("../", strings.Count(pr.x, "/")+4) + "sentinel.txt"},
+			} {
+				tgt := tgt
+				wrap("push to "+pr.x+" an index whose child digest names "+tgt.name+", then read it", pr.x, "", func(w *h.World) []h.Violation {
+					body := []byte(strings.Replace(string(h.Index(mtIdx, []h.Desc{f.Items["I1"].Desc()}, nil, "", nil)), f.Items["I1"].Dig, tgt.dig, 1))
+					var vs []h.Violation
+					r := w.Do(h.Req{Method: "PUT", Path: "/v2/" + pr.x + "/manifests/trav", Body: body, Header: map[string]string{"Content-Type": mtIdx}})
+					if r.Status == 201 {
+						vs = append(vs, h.V("content-only-where-pushed", "manifest-with-path-digest-accepted", "an index whose child digest is %q was acknowledged by %s", tgt.dig, pr.x))
+					}
+					g := w.Get("/v2/"+pr.x+"/manifests/trav", "Accept", mtImg)
+					if g.Status == 200 && (string(g.Body) == string(f.Items["l1"].Data) || string(g.Body) == "do not touch") {
+						vs = append(vs, h.V("content-only-where-pushed", "foreign-bytes-served-through-body-digest", "GET %s/manifests/trav returned bytes of %s", pr.x, tgt.name))
+					}
+					return vs
+				})
+			}
 			// paging links of x replayed against y
 			wrap("replay the referrers continuation link of "+pr.x+" against "+pr.y, pr.y, pr.x, func(w *h.World) []h.Violation {
 				var vs []h.Violation
